@@ -311,6 +311,17 @@ pub fn check_shared_parts(s: &str) -> Result<bool, String> {
             }
         }
     }
+    // the accessors asked in another order on a fresh value and on its clone give the same answers
+    {
+        let g = TopicFilter::try_from(s.to_string()).map_err(|e| format!("valid filter {:?} refused: {:?}", s, e))?;
+        let gc = g.clone();
+        let a1 = (gc.is_sys(), g.shared_filter().map(str::to_string), g.shared_group_name().map(str::to_string), gc.is_shared(), g.shared_info().map(|(a, b)| (a.to_string(), b.to_string())));
+        let a2 = (f.is_sys(), f.shared_filter().map(str::to_string), f.shared_group_name().map(str::to_string), f.is_shared(), f.shared_info().map(|(a, b)| (a.to_string(), b.to_string())));
+        let a3 = (g.is_sys(), gc.shared_filter().map(str::to_string), gc.shared_group_name().map(str::to_string), g.is_shared(), gc.shared_info().map(|(a, b)| (a.to_string(), b.to_string())));
+        if a1 != a2 || a2 != a3 {
+            return Err(format!("filter {:?}: (is_sys, shared_filter, shared_group_name, is_shared, shared_info) asked in that order on a fresh value and its clone give {:?} / {:?}; on another value {:?}", s, a1, a3, a2));
+        }
+    }
     let is_sys = s.starts_with("$SYS/");
     if f.is_sys() != is_sys {
         return Err(format!("filter {:?}: is_sys() = {}", s, f.is_sys()));
@@ -715,6 +726,24 @@ pub fn check_name(s: &str, packets: bool, all_fronts: bool) -> Result<bool, Stri
             }
             if n.is_shared() != s.starts_with("$share/") || n.is_sys() != s.starts_with("$SYS/") {
                 return Err(format!("TopicName {:?}: is_shared() = {}, is_sys() = {}", s, n.is_shared(), n.is_sys()));
+            }
+            // the answers do not depend on which accessor is asked first, how often, or on which clone (a lazily filled
+            // cache shared between clones must end up the same whatever the call order)
+            if s.starts_with('$') || s.len() <= 3 {
+                let (sh, sy) = (s.starts_with("$share/"), s.starts_with("$SYS/"));
+                let m = TopicName::try_from(s.to_string()).map_err(|e| format!("{:?}", e))?;
+                let first = (m.is_sys(), m.is_shared(), m.is_sys(), m.is_shared());
+                let c = m.clone();
+                let on_clone = (c.is_shared(), c.is_sys());
+                let k = TopicName::try_from(s.to_string()).map_err(|e| format!("{:?}", e))?;
+                let kc = k.clone();
+                let clone_first = (kc.is_sys(), k.is_shared(), k.is_sys(), kc.is_shared());
+                if first != (sy, sh, sy, sh) || on_clone != (sh, sy) || clone_first != (sy, sh, sy, sh) {
+                    return Err(format!(
+                        "TopicName {:?}: asked is_sys, is_shared, is_sys, is_shared on a fresh value -> {:?}; then is_shared, is_sys on its clone -> {:?}; is_sys on a clone first, then is_shared on the original, is_sys on the original, is_shared on the clone -> {:?}; the text says shared {} / sys {}",
+                        s, first, on_clone, clone_first, sh, sy
+                    ));
+                }
             }
         }
         Err(Error::InvalidTopicName(t)) => {
